@@ -6,8 +6,9 @@
 use std::io::{BufRead, BufReader, Write};
 use std::panic::{catch_unwind, AssertUnwindSafe};
 
-use crate::ast::{self, Case, EKind, IKind};
+use crate::ast::{self, Case, EKind, HCase, IKind, LineKind};
 use crate::sexp;
+use crate::val::track;
 
 /// The name of the worker executable for a combination (`n`: input length, only for `array`).
 pub fn worker_name(ikind: IKind, ekind: EKind, n: usize) -> String {
@@ -30,8 +31,23 @@ pub fn classify_panic(msg: &str) -> &'static str {
     }
 }
 
+/// The class of a caught panic (FORMAT.md, panic classification).
+pub fn panic_class(payload: &(dyn std::any::Any + Send)) -> &'static str {
+    let msg = if let Some(s) = payload.downcast_ref::<&'static str>() {
+        (*s).to_string()
+    } else if let Some(s) = payload.downcast_ref::<String>() {
+        s.clone()
+    } else {
+        String::new()
+    };
+    classify_panic(&msg)
+}
+
+/// The name of the worker executable for the thread cases.
+pub const THREADS_WORKER: &str = "hw-threads";
+
 /// Die with the front end: a worker stuck in a non-terminating parse must not outlive a killed `harness`.
-fn die_with_parent() {
+pub fn die_with_parent() {
     #[cfg(target_os = "linux")]
     {
         extern "C" {
@@ -55,7 +71,7 @@ fn die_with_parent() {
 /// terminate usually allocates without bound (e.g. a pratt postfix operator that consumes nothing), and the
 /// driver runs many harnesses side by side. When the cap is hit the allocation failure aborts the worker and
 /// the front end stops without a result for the case, which the driver reports as TIMEOUT.
-fn cap_memory() {
+pub fn cap_memory() {
     #[cfg(target_os = "linux")]
     {
         #[repr(C)]
@@ -78,8 +94,27 @@ fn cap_memory() {
     }
 }
 
+/// The runner of ordinary cases and (where there is one) of history cases.
+pub type Run = fn(&Case, bool) -> String;
+pub type RunHist = fn(&HCase, bool) -> String;
+
 /// `run`: the runner of this worker's combination (`hcore::kinds::run_*::<Sel*>`).
-pub fn main(ikind: IKind, ekind: EKind, run: fn(&Case, bool) -> String) {
+pub fn main(ikind: IKind, ekind: EKind, run: Run) {
+    serve(ikind, ekind, run, None)
+}
+
+/// A worker that also serves the history cases of its combination (`hcore::hist::run_hist::<Fam, Sel*>`).
+pub fn main_h(ikind: IKind, ekind: EKind, run: Run, hist: RunHist) {
+    serve(ikind, ekind, run, Some(hist))
+}
+
+fn serve(ikind: IKind, ekind: EKind, run: Run, hist: Option<RunHist>) {
+    serve_lines(|line, why| run_line(line, ikind, ekind, run, hist, why))
+}
+
+/// The loop of every worker: `handle(line, why)` yields the id and the result of a non-blank input line
+/// (`None`: no id can be read from the line).
+pub fn serve_lines(mut handle: impl FnMut(&str, bool) -> Option<(u64, String)>) {
     die_with_parent();
     cap_memory();
     let args: Vec<String> = std::env::args().collect();
@@ -117,7 +152,7 @@ pub fn main(ikind: IKind, ekind: EKind, run: fn(&Case, bool) -> String) {
             continue;
         }
         // exactly one output line per non-blank input line
-        let res = match run_line(&line, ikind, ekind, run, why) {
+        let res = match handle(&line, why) {
             Some((id, result)) => writeln!(out, "{id} {result}"),
             None => writeln!(out, "? UNSUPPORTED"),
         };
@@ -133,7 +168,8 @@ fn run_line(
     line: &str,
     ikind: IKind,
     ekind: EKind,
-    run: fn(&Case, bool) -> String,
+    run: Run,
+    hist: Option<RunHist>,
     why: bool,
 ) -> Option<(u64, String)> {
     let sexp = match sexp::parse_line(line) {
@@ -141,14 +177,36 @@ fn run_line(
         None => return sexp::salvage_id(line).map(|id| (id, "UNSUPPORTED".to_string())),
     };
     let id = ast::case_id(&sexp)?;
+    let unsupported = |reason: &str| {
+        if why {
+            eprintln!("{id}: {reason}");
+        }
+        Some((id, "UNSUPPORTED".to_string()))
+    };
+    match ast::line_kind(&sexp) {
+        LineKind::Plain => {}
+        LineKind::History => {
+            let Some(hist) = hist else {
+                return unsupported("history cases are served by the str and slice workers");
+            };
+            let Some(h) = ast::parse_hcase(&sexp) else {
+                return unsupported("malformed history case or unknown constructor/kind/wrapper");
+            };
+            if h.ikind != ikind || h.ekind != ekind {
+                return unsupported("case routed to the wrong worker");
+            }
+            // panics of the parses are caught per input inside; this one catches the builder
+            let result = match catch_unwind(AssertUnwindSafe(|| hist(&h, why))) {
+                Ok(r) => r,
+                Err(payload) => format!("PANIC {}", panic_class(&*payload)),
+            };
+            return Some((id, result));
+        }
+        LineKind::Threads => return unsupported("thread cases are served by hw-threads"),
+    }
     let case = match ast::parse_case(&sexp) {
         Some(c) => c,
-        None => {
-            if why {
-                eprintln!("{id}: malformed case or unknown constructor/kind");
-            }
-            return Some((id, "UNSUPPORTED".to_string()));
-        }
+        None => return unsupported("malformed case or unknown constructor/kind"),
     };
     if case.ikind != ikind || case.ekind != ekind {
         if why {
@@ -156,18 +214,18 @@ fn run_line(
         }
         return Some((id, "UNSUPPORTED".to_string()));
     }
-    let result = match catch_unwind(AssertUnwindSafe(|| run(&case, why))) {
+    // drop accounting (grammars with `FNew`): reset, run, and read the books when everything that belongs
+    // to the case -- parser, input, `ParseResult` -- is gone: all of it lives inside `run`
+    let accounted = case.grammar.has_fnew();
+    if accounted {
+        track::reset();
+    }
+    let mut result = match catch_unwind(AssertUnwindSafe(|| run(&case, why))) {
         Ok(r) => r,
-        Err(payload) => {
-            let msg = if let Some(s) = payload.downcast_ref::<&'static str>() {
-                (*s).to_string()
-            } else if let Some(s) = payload.downcast_ref::<String>() {
-                s.clone()
-            } else {
-                String::new()
-            };
-            format!("PANIC {}", classify_panic(&msg))
-        }
+        Err(payload) => format!("PANIC {}", panic_class(&*payload)),
     };
+    if accounted && result != "UNSUPPORTED" {
+        result.push_str(&track::suffix());
+    }
     Some((id, result))
 }
